@@ -653,4 +653,26 @@ PLANS["C18"] = dict(
                  "whether a deleted helper struct of a kept enum must reappear is not specified by the property and is not judged"],
     floor=dict(quick=100, thorough=1000),
 )
+TECH = {
+    "C01": "runtime monitoring: real LR parser (table dumped through the hook) vs Earley membership on exhaustive short strings and random sentences of generated grammars",
+    "C02": "runtime monitoring: tree validator (independent of the language) over Ok results under random disambiguation, partial_parse differential",
+    "C03": "runtime monitoring: GLR forest APIs vs a memoised derivation counter/enumerator over token lattices",
+    "C04": "runtime monitoring: dumped table vs reference canonical LR(1) collection through a simulation relation, complete per grammar",
+    "C05": "runtime monitoring: cell-by-cell oracle of the documented resolution rule + precedence-climbing reference parser",
+    "C06": "runtime monitoring: tokens acted on vs the documented lexical selection (oracle-side LR walk / survivor-path lattice), exhaustive short inputs",
+    "C07": "runtime monitoring: differential LR vs GLR on conflict-free grammars (acceptance, solution count, trees with all spans)",
+    "C08": "runtime monitoring: generated source compiled by rustc and interrogated completely, expectations from the table dump and the dynamic route",
+    "C09": "runtime monitoring: structural comparison of the analysed grammar (hook dump) with the generator's abstract grammar + language of the sugar vs Earley on the documented expansion",
+    "C10": "runtime monitoring: Debug rendering of default-builder ASTs from rustc-compiled generated parsers vs the content tokens of derivations with unique token texts",
+    "C11": "runtime monitoring: rustc (cargo check, JSON diagnostics) over every accepted (grammar, settings) module, call-site signatures for listed findings",
+    "C12": "runtime monitoring: error offset/line/column vs the Earley viable-prefix index over mutated and exhaustive inputs",
+    "C13": "runtime monitoring: span/position invariant checker over every node of every LR tree and GLR forest tree",
+    "C14": "runtime monitoring: round-trip (layout + token texts == input) and layout-insertion differential over seven layout families",
+    "C15": "runtime monitoring: catch_unwind + logical step clock + abort detection over hostile inputs and hostile lexers, debug and release builds",
+    "C16": "runtime monitoring: catch_unwind + abort detection over exemplar, generated and mutated grammar texts under the settings lattice",
+    "C17": "runtime monitoring: byte comparison of files written by fresh rcomp processes, by the library API, in different orders and in directory mode",
+    "C18": "runtime monitoring: syn item-list differ over random edit histories of the actions file and force(false) regeneration",
+}
+for _k, _v in TECH.items():
+    PLANS[_k]["technique"] = _v
 NOT_CLAIMED = {}
